@@ -50,6 +50,17 @@ func init() {
 				}
 			}
 			sp := Spec{Prompt: "> ", Mode: "emacs", Runs: 1, Completer: cands, Inject: []Inject{{Seq: `\C-x\C-y0`, Line: string(line), Pos: pos}}}
+			// one cancel in three comes after an incremental history search that replaced the line and was left
+			// (state of an earlier mode that the cancel must not bring back)
+			if strings.HasPrefix(how, "cancel") && r.Intn(3) == 0 {
+				sp.History = []string{"make test", "ls -l /tmp", "echo done"}
+				pre := []string{"zz", []string{"\x12", "\x13"}[r.Intn(2)], "l", "\x1b"}
+				if r.Intn(2) == 0 {
+					pre = []string{"zz", "\x12", "e", "\x12", "\x07"}
+				}
+				keys = append(pre, keys...)
+				how += "+after-isearch"
+			}
 			sp.Chunks = hexChunks(keys)
 			class := "ascii"
 			for _, c := range pfx {
@@ -83,7 +94,7 @@ func init() {
 			if strings.HasPrefix(how, "cancel") {
 				// the wait at which Ctrl-C was read: a menu must be active there
 				k := len(c.Specs[0].Chunks) - 1
-				if k >= len(tr.Waits) || !(tr.Waits[k].Local == "menu-select" || (how == "cancel-searching" && tr.Waits[k].Local == "isearch")) {
+				if k >= len(tr.Waits) || !(tr.Waits[k].Local == "menu-select" || (strings.HasPrefix(how, "cancel-searching") && tr.Waits[k].Local == "isearch")) {
 					stat("skipped: no active menu at Ctrl-C")
 					return nil
 				}
